@@ -152,6 +152,7 @@ func init() {
 		if defCheckers == nil || defFn == "" {
 			failShape("defaults of build.hashcheckers / build.hashfunction not found")
 		}
+		fgDefs := c35Filegroup()
 		return genHeader +
 			fmt.Sprintf("Definition unprefix_sep : N := %d%%N.\n", sep[0]) +
 			"Definition unprefix_works_on_copy : bool := true.\n" +
@@ -161,8 +162,211 @@ func init() {
 			"Definition output_hash_memoised : bool := " + c35Bool(memoised) + ".\n" +
 			"Definition hashers : list (string * nat) := [" + strings.Join(hashers, "; ") + "].\n" +
 			"Definition default_hashfunction : string := " + coqString(defFn) + ".\n" +
-			"Definition default_hashcheckers : list string := " + coqStringList(defCheckers) + ".\n"
+			"Definition default_hashcheckers : list string := " + coqStringList(defCheckers) + ".\n" +
+			fgDefs
 	}
+}
+
+// c35Filegroup TRANSLATES (src/build/filegroup.go, src/core/build_target.go):
+//   - the order of core.BuildTargetState (iota block) -> build_states;
+//   - the comparison of buildFilegroup's second loop, `state.Graph.TargetOrDie(l).State() OP core.CONST` ->
+//     fg_src_state_triggers : nat -> bool over the index in build_states; and that the loop looks at targets of the
+//     same package only;
+//   - filegroupBuilder: the value type of the memo `built`, what a memo hit returns as a function of the recorded
+//     value (fg_memo_hit), and the values the two stores record (fg_memo_store_same / _built; None = not a verdict).
+func c35Filegroup() string {
+	_, bt := parseFile("src/core/build_target.go")
+	states := iotaConsts(bt, "BuildTargetState")
+	fset, f := parseFile("src/build/filegroup.go")
+	bf := findFunc(f, "", "buildFilegroup")
+	// the second range loop: `for _, bi := range target.AllSources()`
+	var loop *ast.RangeStmt
+	for _, st := range bf.Body.List {
+		if rs, ok := st.(*ast.RangeStmt); ok && c35Expr(fset, rs.X) == "target.AllSources()" {
+			if loop != nil {
+				failShape("buildFilegroup: more than one loop over target.AllSources()")
+			}
+			loop = rs
+		}
+	}
+	if loop == nil {
+		failShape("buildFilegroup: no `for _, bi := range target.AllSources()` loop")
+	}
+	var cmps []*ast.BinaryExpr
+	samePkg := 0
+	ast.Inspect(loop.Body, func(n ast.Node) bool {
+		switch x := n.(type) {
+		case *ast.BinaryExpr:
+			if c35Expr(fset, x.X) == "state.Graph.TargetOrDie(l).State()" {
+				cmps = append(cmps, x)
+			}
+		case *ast.CallExpr:
+			if c35Expr(fset, x.Fun) == "target.Label.InSamePackageAs" {
+				samePkg++
+			}
+		}
+		return true
+	})
+	if len(cmps) != 1 {
+		failShape("buildFilegroup: expected exactly one comparison of state.Graph.TargetOrDie(l).State(), found %d", len(cmps))
+	}
+	if samePkg != 1 {
+		failShape("buildFilegroup: the source-state loop is not guarded by exactly one target.Label.InSamePackageAs(l)")
+	}
+	body := c35Norm(fset, loop.Body)
+	if !strings.HasPrefix(body, "{ if changed { break }") {
+		failShape("buildFilegroup: the source-state loop does not start with `if changed { break }`: %s", body)
+	}
+	sel, ok := cmps[0].Y.(*ast.SelectorExpr)
+	if !ok || c35Expr(fset, sel.X) != "core" {
+		failShape("buildFilegroup: the state is not compared with a core.<State> constant")
+	}
+	idx := -1
+	for i, n := range states {
+		if n == sel.Sel.Name {
+			idx = i
+		}
+	}
+	if idx < 0 {
+		failShape("buildFilegroup: core.%s is not a BuildTargetState", sel.Sel.Name)
+	}
+	var trig string
+	switch cmps[0].Op {
+	case token.LSS:
+		trig = fmt.Sprintf("Nat.ltb r %d", idx)
+	case token.LEQ:
+		trig = fmt.Sprintf("Nat.leb r %d", idx)
+	case token.EQL:
+		trig = fmt.Sprintf("Nat.eqb r %d", idx)
+	case token.NEQ:
+		trig = fmt.Sprintf("negb (Nat.eqb r %d)", idx)
+	case token.GTR:
+		trig = fmt.Sprintf("Nat.ltb %d r", idx)
+	case token.GEQ:
+		trig = fmt.Sprintf("Nat.leb %d r", idx)
+	default:
+		failShape("buildFilegroup: unknown comparison %s", cmps[0].Op)
+	}
+	// the comparison must be what sets `changed` (either `if cmp { changed = true }` or `changed = cmp`)
+	cmpText := c35Expr(fset, cmps[0])
+	if !strings.Contains(body, "if ok && "+cmpText+" { changed = true }") && !strings.Contains(body, "if "+cmpText+" { changed = true }") &&
+		!strings.Contains(body, "changed = "+cmpText) {
+		failShape("buildFilegroup: the state comparison does not set `changed`: %s", body)
+	}
+
+	// --- the memo
+	valType := ""
+	for _, d := range f.Decls {
+		gd, ok := d.(*ast.GenDecl)
+		if !ok || gd.Tok != token.TYPE {
+			continue
+		}
+		for _, sp := range gd.Specs {
+			ts := sp.(*ast.TypeSpec)
+			st, ok := ts.Type.(*ast.StructType)
+			if !ok || ts.Name.Name != "filegroupBuilder" {
+				continue
+			}
+			for _, fld := range st.Fields.List {
+				for _, n := range fld.Names {
+					if n.Name == "built" {
+						mt, ok := fld.Type.(*ast.MapType)
+						if !ok || c35Expr(fset, mt.Key) != "string" {
+							failShape("filegroupBuilder.built is not a map[string]...")
+						}
+						valType = c35Expr(fset, mt.Value)
+					}
+				}
+			}
+		}
+	}
+	if valType == "" {
+		failShape("filegroupBuilder.built not found")
+	}
+	bd := findFunc(f, "filegroupBuilder", "Build")
+	hit := ""
+	var stores []string // in source order: (top-level?, value)
+	var storeTop []bool
+	for _, st := range bd.Body.List {
+		ifs, ok := st.(*ast.IfStmt)
+		if ok && ifs.Init != nil {
+			if as, ok := ifs.Init.(*ast.AssignStmt); ok && len(as.Lhs) == 2 && len(as.Rhs) == 1 && c35Expr(fset, as.Rhs[0]) == "builder.built[to]" {
+				// `if V, present := builder.built[to]; present { return E, nil }`
+				if c35Expr(fset, as.Lhs[1]) != c35Expr(fset, ifs.Cond) || len(ifs.Body.List) != 1 || ifs.Else != nil {
+					failShape("filegroupBuilder.Build: memo lookup is not `if v, present := builder.built[to]; present { return ... }`")
+				}
+				ret, ok := ifs.Body.List[0].(*ast.ReturnStmt)
+				if !ok || len(ret.Results) != 2 || c35Expr(fset, ret.Results[1]) != "nil" {
+					failShape("filegroupBuilder.Build: memo hit does not `return <verdict>, nil`")
+				}
+				switch e := c35Expr(fset, ret.Results[0]); {
+				case e == c35Expr(fset, as.Lhs[0]) && e != "_":
+					hit = "recorded"
+				case e == "true" || e == "false":
+					hit = e
+				case e == "!"+c35Expr(fset, as.Lhs[0]):
+					hit = "negb recorded"
+				default:
+					failShape("filegroupBuilder.Build: memo hit returns %s", e)
+				}
+			}
+		}
+	}
+	if hit == "" {
+		failShape("filegroupBuilder.Build: no memo lookup `if v, present := builder.built[to]; present {...}` at the top level")
+	}
+	var walk func(list []ast.Stmt, top bool)
+	walk = func(list []ast.Stmt, top bool) {
+		for _, st := range list {
+			switch x := st.(type) {
+			case *ast.AssignStmt:
+				if len(x.Lhs) == 1 && c35Expr(fset, x.Lhs[0]) == "builder.built[to]" {
+					if len(x.Rhs) != 1 || x.Tok != token.ASSIGN {
+						failShape("filegroupBuilder.Build: odd store into builder.built[to]")
+					}
+					switch v := c35Expr(fset, x.Rhs[0]); v {
+					case "true", "false":
+						stores = append(stores, "Some "+v)
+					default:
+						stores = append(stores, "None")
+					}
+					storeTop = append(storeTop, top)
+				}
+			case *ast.IfStmt:
+				walk(x.Body.List, false)
+				for e := x.Else; e != nil; {
+					switch y := e.(type) {
+					case *ast.IfStmt:
+						walk(y.Body.List, false)
+						e = y.Else
+					case *ast.BlockStmt:
+						walk(y.List, false)
+						e = nil
+					default:
+						e = nil
+					}
+				}
+			case *ast.BlockStmt:
+				walk(x.List, false)
+			}
+		}
+	}
+	walk(bd.Body.List, true)
+	// first the store of the `same` branch (nested), then the store after the file has been put in place (top level)
+	if len(stores) != 2 || storeTop[0] || !storeTop[1] {
+		failShape("filegroupBuilder.Build: expected one store into builder.built[to] in the `same` branch and one at the end, found %v (top-level %v)", stores, storeTop)
+	}
+	nb := c35Norm(fset, bd.Body)
+	if !strings.Contains(nb, "else if same { builder.built[to] = ") {
+		failShape("filegroupBuilder.Build: the first store is not in the `else if same` branch")
+	}
+	return "Definition build_states : list string := " + coqStringList(states) + ".\n" +
+		"Definition fg_src_state_triggers (r : nat) : bool := " + trig + ".\n" +
+		"Definition fg_src_same_package_only : bool := true.\n" +
+		"Definition fg_memo_value_type : string := " + coqString(valType) + ".\n" +
+		"Definition fg_memo_hit (recorded : bool) : bool := " + hit + ".\n" +
+		"Definition fg_memo_store_same : option bool := " + stores[0] + ".\n" +
+		"Definition fg_memo_store_built : option bool := " + stores[1] + ".\n"
 }
 
 func c35Bool(b bool) string {
